@@ -18,6 +18,7 @@ import (
 	"os/exec"
 	"path/filepath"
 	"reflect"
+	"regexp"
 	"runtime"
 	"runtime/debug"
 	"strconv"
@@ -436,11 +437,19 @@ type groupRec struct {
 	Type     string            `json:"type"` // "group" | "done"
 	Group    int64             `json:"group"`
 	Counters map[string]int64  `json:"counters,omitempty"`
-	MaxRatio map[string]float64 `json:"max_ratio,omitempty"` // per decoder: max alloc / max(limit,len)
+	MaxRatio map[string]float64 `json:"max_ratio,omitempty"` // per decoder: max over inputs of allocated bytes / allowed bytes
 	Viols    []robustViol      `json:"viols,omitempty"`
+	Decoder  string            `json:"decoder,omitempty"`
+	Millis   int64             `json:"ms,omitempty"` // informational only
+	Units    int               `json:"units,omitempty"`
 }
 
 const hdrLen = 160
+
+// RLIMIT_AS of a child. A Go process maps about 1.2 GiB of address space at start; the
+// remaining ~0.8 GiB is far above anything a legitimate decode of the inputs used here
+// needs, and allocations of 1 GiB and more fail at once instead of being zero-filled.
+const asLimit = 2 << 30
 
 func allocBound(d *decoder, lmt, inLen int) uint64 {
 	m := uint64(inLen)
@@ -460,7 +469,7 @@ func allocBound(d *decoder, lmt, inLen int) uint64 {
 	}
 }
 
-func groupsPerChild() int { return lib.Pick(420, 26000) }
+func groupsPerChild() int { return lib.Pick(2400, 16000) }
 
 // groupPlan: which decoder and seed number a (shard, j) group uses.
 func groupPlan(shard, nshards, j int) (g int64, d *decoder, seedNo int64, full bool) {
@@ -470,7 +479,7 @@ func groupPlan(shard, nshards, j int) (g int64, d *decoder, seedNo int64, full b
 	d = decoders[di]
 	seedNo = int64(j/D)*int64(nshards) + int64(shard)
 	round := j / D
-	full = (di+shard)%4 == 0 && (round == 0 || (lib.Thorough() && round%8 == 0))
+	full = (di+shard)%4 == 0 && (round == 0 || (lib.Thorough() && round%8 == 0)) // exhaustive offsets; applies to short seeds only (see childMain)
 	return
 }
 
@@ -483,7 +492,7 @@ func childMain(args []string) int {
 	runtime.GOMAXPROCS(1)
 	debug.SetGCPercent(50)
 	var lim syscall.Rlimit
-	lim.Cur, lim.Max = 4<<30, 4<<30
+	lim.Cur, lim.Max = asLimit, asLimit
 	if err := syscall.Setrlimit(syscall.RLIMIT_AS, &lim); err != nil {
 		fmt.Fprintf(os.Stderr, "setrlimit: %v\n", err)
 		return 3
@@ -515,8 +524,13 @@ func childMain(args []string) int {
 		if od.codec == d.codec {
 			other = od.seed(seedNo)
 		}
+		if len(seed) > 192 {
+			full = false
+		}
 		muts := mutants(rng, d, seed, other, full, sample)
-		rec := groupRec{Type: "group", Group: g, Counters: map[string]int64{}, MaxRatio: map[string]float64{}}
+		rec := groupRec{Type: "group", Group: g, Counters: map[string]int64{}, MaxRatio: map[string]float64{}, Decoder: d.name}
+		gStart := time.Now()
+		needRestart := false
 		lims := limits
 		if d.limKind != limCaller {
 			lims = []int{0}
@@ -593,6 +607,9 @@ func childMain(args []string) int {
 				if delta > 4096 && ratio > rec.MaxRatio[d.name] {
 					rec.MaxRatio[d.name] = ratio
 				}
+				if delta > 256<<20 {
+					needRestart = true // checked after this unit's verdicts
+				}
 				if b := allocBound(d, lmt, len(m.data)); delta > b {
 					rec.Counters["overalloc|"+d.name]++
 					lclass := "caller-limit"
@@ -605,8 +622,20 @@ func childMain(args []string) int {
 					v.Alloc, v.Bound = delta, b
 					rec.Viols = appendViol(rec.Viols, v)
 				}
+				if needRestart {
+					// a huge allocation succeeded: its address space stays mapped and would make a
+					// later, innocent input hit RLIMIT_AS. Continue in a fresh process after this unit.
+					rec.Units = unit
+					b, _ := json.Marshal(rec)
+					w.Write(b)
+					w.WriteByte('\n')
+					w.Flush()
+					return 75
+				}
 			}
 		}
+		rec.Millis = int64(time.Since(gStart) / time.Millisecond)
+		rec.Units = unit
 		b, _ := json.Marshal(rec)
 		w.Write(b)
 		w.WriteByte('\n')
@@ -642,10 +671,14 @@ func runRobust(nshards int) {
 		self, _ = os.Executable()
 	}
 	maxRatio := map[string]float64{}
+	msByDecoder := map[string]int64{}
 	type res struct {
 		recs   []groupRec
 		deaths []map[string]interface{}
 		incon  string
+		restarts, unattributed int
+		ndeaths  int
+		deathsBy map[string]int
 	}
 	results := make([]res, nshards)
 	wall := time.Duration(lib.Pick(15, 60)) * time.Minute
@@ -681,9 +714,29 @@ func runRobust(nshards int) {
 			if werr == nil {
 				break
 			}
-			// the child died: the last logged input is the witness
 			h, data := readInputFile(inf)
+			if ee, ok := werr.(*exec.ExitError); ok && ee.ExitCode() == 75 && h != nil {
+				// voluntary restart after a huge (already reported) allocation
+				results[s].restarts++
+				fromJ, fromUnit = h.J, h.Unit
+				continue
+			}
+			// the child died: the last logged input is the witness
 			st := stderr.String()
+			if m := allocReq.FindStringSubmatch(st); m != nil && h != nil {
+				// memory exhaustion: attributable to the logged input only if the failing request
+				// itself exceeds what that input may allocate
+				req, _ := strconv.ParseUint(m[1], 10, 64)
+				if d := decoderByName(h.Decoder); d != nil && req <= allocBound(d, h.Limit, h.Len) {
+					results[s].unattributed++
+					fromJ, fromUnit = h.J, h.Unit
+					if results[s].unattributed > 3 {
+						results[s].incon = fmt.Sprintf("robust child %d ran out of memory %d times on requests within the bound (last: %d bytes while decoding %s)", s, results[s].unattributed, req, h.Decoder)
+						break
+					}
+					continue
+				}
+			}
 			if len(st) > 3000 {
 				st = st[:3000]
 			}
@@ -696,9 +749,20 @@ func runRobust(nshards int) {
 				d["input_hex"] = hex.EncodeToString(in)
 				d["input_len"] = len(data)
 			}
-			results[s].deaths = append(results[s].deaths, d)
+			results[s].ndeaths++
+			dk := "?"
+			if h != nil {
+				dk = h.Decoder
+			}
+			if results[s].deathsBy == nil {
+				results[s].deathsBy = map[string]int{}
+			}
+			results[s].deathsBy[dk]++
+			if results[s].deathsBy[dk] <= 3 {
+				results[s].deaths = append(results[s].deaths, d)
+			}
 			restarts++
-			if h == nil || restarts > 40 {
+			if h == nil || restarts > 20000 {
 				results[s].incon = fmt.Sprintf("robust child %d died %d times (last: %v); giving up on its shard", s, restarts, werr)
 				break
 			}
@@ -750,11 +814,14 @@ func runRobust(nshards int) {
 			case strings.Contains(st, "fatal error"):
 				reason = "fatal-error"
 			}
-			run.Count("robust_child_deaths", 1)
 			run.Violation("robust/"+dec+"/child-death/"+reason, fmt.Sprintf("the decoding process died (%s) while %s decoded a %s input with limit %d", reason, dec, kind, lmt), d)
 		}
+		run.Count("robust_child_deaths", int64(r.ndeaths))
+		run.Count("robust_child_restarts_after_huge_alloc", int64(r.restarts))
+		run.Count("robust_child_oom_unattributed", int64(r.unattributed))
 		for _, rec := range r.recs {
-			run.Count("robust_groups", 1)
+			run.Distinct("robust_groups", fmt.Sprintf("g%d", rec.Group))
+			msByDecoder[rec.Decoder] += rec.Millis
 			for k, v := range rec.Counters {
 				p := strings.SplitN(k, "|", 2)
 				switch p[0] {
@@ -790,16 +857,19 @@ func runRobust(nshards int) {
 	var top float64
 	rounded := map[string]float64{}
 	for k, v := range maxRatio {
-		rounded[k] = float64(int(v*100)) / 100
+		rounded[k] = float64(int(v*1000)) / 1000
 		d := decoderByName(k)
 		if d != nil && d.limKind == limCaller && v > top {
 			top = v
 		}
 	}
-	run.Extra("robust_max_alloc_ratio_by_decoder", rounded)
-	run.Extra("robust_max_alloc_ratio_caller_limit_decoders", float64(int(top*100))/100)
+	run.Extra("robust_max_alloc_over_bound_ratio_by_decoder", rounded)
+	run.Extra("robust_max_alloc_over_bound_ratio_caller_limit_decoders", float64(int(top*1000))/1000)
 	run.Extra("robust_decoders", len(decoders))
+	run.Extra("robust_child_ms_by_decoder_informational", msByDecoder)
 }
+
+var allocReq = regexp.MustCompile(`cannot allocate (\d+)-byte block`)
 
 func decoderByName(n string) *decoder {
 	for _, d := range decoders {
